@@ -16,7 +16,7 @@ func init() {
 	register(&PropDef{
 		ID:          "C17",
 		Patterns:    []string{"./runtime", "./utils"},
-		Explanation: "Values cross the Go boundary through reflection. Decided structurally: (KIND) in every function that switches on the Kind of a target reflect.Type, each reflect.Value it returns for that target is converted to the target type (Convert/New/Zero of that type) — otherwise reflect.Value.Call panics for every kind or named type the static Go type does not equal; (EXH) the result conversion keeps the numeric kinds the property lists (sized ints, unsigned ints, float32) numeric instead of falling into the stringifying default, and the parameter conversion ends in a catchable error for unsupported kinds; (NARROW) narrowing numeric conversions in the generic argument converters are range-checked. The values themselves are not decided.",
+		Explanation: "Values cross the Go boundary through reflection. Decided structurally: (KIND) in every function that switches on the Kind of a target reflect.Type, each reflect.Value it returns for that target is converted to the target type (Convert/New/Zero of that type) — otherwise reflect.Value.Call panics for every kind or named type the static Go type does not equal; (EXH) the result conversion keeps the numeric kinds the property lists (sized ints, unsigned ints, float32) numeric instead of falling into the stringifying default, and the parameter conversion ends in a catchable error for unsupported kinds; (NARROW) narrowing numeric conversions in the generic argument converters are range-checked, an integer does not reach its target through float64, and a signed script integer is sign-tested before it becomes an unsigned Go value; a Go result is asked IsNil() before Elem(). The values themselves are not decided.",
 		Assumptions: []string{
 			"reflect.Value.Call requires each argument to be assignable to the parameter type",
 			"a conversion T(x) to a narrower or differently signed integer/float type silently wraps or truncates in Go",
